@@ -54,7 +54,7 @@ func Str(n int) string {
 	if n == 0 {
 		return ""
 	}
-	if n < 0 || n > 26*26 {
+	if n < 0 || n > StrMax {
 		panic(fmt.Sprintf("name %d out of range", n))
 	}
 	if n == StrPrinted {
@@ -83,7 +83,19 @@ const (
 	StrZzw      = 675 // "zzw"
 )
 
-var strPrefix = map[int]string{StrZu: "zu", StrZuEu: "zu-eu", StrZuz: "zuz", StrZw: "zw", StrZzw: "zzw"}
+var strPrefix = map[int]string{StrZu: "zu", StrZuEu: "zu-eu", StrZuz: "zuz", StrZw: "zw", StrZzw: "zzw",
+	StrCaseA: "zzwA", StrCasea: "zzwa", StrDotX: "zzwa.x", StrDotY: "zzwa.y"}
+
+// Four more, above StrPrinted, for kinds and node names only (nothing sorts
+// those): two that differ only in the case of a letter, and two dotted names
+// that share their first label with each other and with a short name.
+const (
+	StrCaseA = 677 // "zzwA"
+	StrCasea = 678 // "zzwa"
+	StrDotX  = 679 // "zzwa.x"
+	StrDotY  = 680 // "zzwa.y"
+	StrMax   = 680
+)
 
 // StrPrinted is the id of the separator-laden label value (see Str).
 const StrPrinted = 26 * 26
